@@ -1223,7 +1223,7 @@ func runR44(c *Ctx) {
 
 func runR45(c *Ctx) {
 	p := c.P
-	fn := p.Func("internal/io", "columnToData")
+	fn := p.anchorColumnToData()
 	if fn == nil {
 		c.undecided("anchor|columnToData", "-", "internal/io.columnToData not found")
 		return
@@ -1338,7 +1338,7 @@ func runR45(c *Ctx) {
 
 func runR46(c *Ctx) {
 	p := c.P
-	fn := p.Func("internal/ecolumn", "Column.filterBuiltIn")
+	fn := p.anchorEnumBuiltInFilter()
 	if fn == nil {
 		c.undecided("anchor|filterBuiltIn", "-", "ecolumn.Column.filterBuiltIn not found")
 		return
